@@ -80,7 +80,7 @@ func hostileWeights() map[string]int {
 }
 
 func runC03(c *core.Ctx) {
-	n := c.Pick(160, 3000)
+	n := c.Pick(600, 5000)
 	steps := c.Pick(30, 40)
 	c.RunHistories(n, Registry["C03"].Mons, func(w *core.World) {
 		k := NewWalker(w, gen.NameOpts{Space: true, Meta: w.Hist%2 == 0, NonASCII: w.Hist%3 == 0, MaxDepth: 3, N: 6}, hostileWeights())
@@ -199,7 +199,7 @@ func garbage(k *Walker) {
 }
 
 func runC18(c *core.Ctx) {
-	n := c.Pick(150, 3000)
+	n := c.Pick(640, 5000)
 	steps := c.Pick(40, 50)
 	c.RunHistories(n, Registry["C18"].Mons, func(w *core.World) {
 		wts := hostileWeights()
@@ -209,7 +209,7 @@ func runC18(c *core.Ctx) {
 		k.Escape = w.Hist%2 == 0
 		k.Swap = w.Hist%4 == 0
 		k.MsgClass = true
-		switch w.Hist % 6 {
+		switch w.Hist % 8 {
 		case 0: // commands before init, then fresh repository without identity
 			for i := 0; i < 4; i++ {
 				k.goit(pickS(k.R, subcommands[1:18]))
@@ -218,6 +218,28 @@ func runC18(c *core.Ctx) {
 		case 1: // fresh repo, identity set, probe every command before the first commit
 			k.Init()
 			for _, a := range []string{"status", "log", "reflog", "branch-create", "switch-c", "branch-list", "reset", "rev-parse", "write-tree", "restore-staged", "commit", "branch-rename", "branch-delete", "update-ref", "ls-files"} {
+				k.Do(a)
+			}
+		case 2: // the emptied snapshot: everything removed and committed
+			k.Init()
+			for i, p := range k.Pool {
+				if i < 3 {
+					w.Write(p, k.content())
+				}
+			}
+			k.Do("commit-all")
+			if tr := k.tracked(); len(tr) > 0 {
+				k.goit(append([]string{"rm"}, tr...)...)
+				k.goit("commit", "-m", "emptied")
+			}
+			for _, a := range []string{"status", "log", "reflog", "commit", "ls-files", "write-tree", "restore-staged", "reset", "branch-create", "switch-c", "status"} {
+				k.Do(a)
+			}
+		case 3: // a renamed branch (zero-id journal records)
+			k.Init()
+			k.Do("commit-all")
+			k.goit("branch", "-r", "renamed")
+			for _, a := range []string{"reflog", "status", "log", "reset", "reset", "reflog", "commit-all", "branch-rename", "reflog", "reset"} {
 				k.Do(a)
 			}
 		default:
